@@ -248,6 +248,11 @@ def obligations(tier):
         return n_eval, fails
     obs.append(BoundedOb(f"{PID}/bounded/quasi-optimality bounds and Tucker exactness on native inputs", "tensorly.decomposition:tucker+tensor_train", bounded,
                          dict(orders="2-4", kinds="generic/integer-valued/integer-dtype/low-rank/rank-deficient", ranks="1..max+1 and beyond the sizes", methods="truncated_svd / symeig_svd"), "orders 2-4, 4 tensor kinds per shape (bounds) + 6 exactness cases x 2 exact SVD methods for Tucker, TT, TR (every mode), TT-matrix, all uniform ranks from 1 past the sizes, seed 0"))
+    _BOb = BoundedOb
+    from . import e2e_native as _e2e
+    obs.append(_BOb(f"{PID}/bounded/native survey of secondary entry points: PARAFAC2 variants, TR-ALS, constrained / randomised CP, masks, sparse component, normalisation exits, CMTF, TT-matrix",
+                    "tensorly.decomposition:parafac2+tensor_ring_als+constrained_parafac+randomised_parafac+parafac+non_negative_tucker+non_negative_tucker_hals+coupled_matrix_tensor_3d_factorization+tensor_train_matrix",
+                    lambda: _e2e.extras(tier, PID), dict(entry_points=9, clauses="those of this property"), "seed 0; tolerances 1e-6 (errors), 1e-8 (structure); one shared run per process, failures filtered by property", pid=PID))
     return obs
 
 
